@@ -194,6 +194,9 @@ def harness_factory(m, start_idx, target_idx, part=None):
     return harness
 
 
+from traits.adaptation.api import supports_protocol as _g_supports, adapt as _g_adapt
+
+
 def adaptsto_harness(ex):
     """AdaptsTo / Supports traits apply adapt() to assigned values: the shadow attribute name_ always holds what adapt() yields
     for the value just assigned, also when the same object is assigned again after the offers' behaviour changed"""
@@ -241,8 +244,14 @@ def adaptsto_harness(ex):
             # the compound / container positions run natively (their validators call back into Python for the inner trait)
             return _adaptsto_native(ex, mgr, state, Source, Target, Ad, shape)
 
+        dflt_src = Source()
+
         class Owner(HasTraits):
             t = Supports(Target) if use_supports else AdaptsTo(Target)
+            d = Supports(Target) if use_supports else AdaptsTo(Target)
+
+            def _d_default(self):
+                return dflt_src          # a default that needs adapting, like any assigned value
 
         if shape >= 2:
             return _adaptsto_native(ex, mgr, state, Source, Target, Ad, shape)
@@ -250,6 +259,13 @@ def adaptsto_harness(ex):
         x = Source()
         k = 3
         trace = []
+        if ex.flag("read_the_dynamic_default_first"):
+            dv = o.d
+            if use_supports:
+                ex.check(isinstance(dv, Ad) and dv.adaptee is dflt_src, "a Supports trait whose default method returns an adaptable object "
+                                                                        "reads as the adapter (the default is adapted like an assigned value)")
+            else:
+                ex.check(dv is dflt_src, "an AdaptsTo trait's default reads as the original object")
         it = cenv.new_interp() if ex.sym else None
         for step in range(k):
             op = ex.choice("op%d" % step, 5)
@@ -264,6 +280,8 @@ def adaptsto_harness(ex):
             val = x if op == 2 else Source() if op == 3 else Standin()
             ex.check(mgr.supports_protocol(val, Target) == (state["gen"] >= 0),
                      "supports_protocol(obj, P) says exactly whether adapt(obj, P) yields something (a falsy adapter is an adapter)")
+            ex.check(_g_supports(val, Target) == (state["gen"] >= 0) and (_g_adapt(val, Target, None) is not None) == (state["gen"] >= 0),
+                     "the module-level supports_protocol / adapt entry points answer like the manager's methods")
             if ex.sym:
                 os_ = cenv.hastraits_struct(it, o)
                 with cenv.python_side_env():
@@ -328,6 +346,8 @@ def _adaptsto_native(ex, mgr, state, Source, Target, Ad, shape):
         val = x if op == 2 else Source() if op == 3 else state["Standin"]()
         ex.check(mgr.supports_protocol(val, Target) == (state["gen"] >= 0),
                  "supports_protocol(obj, P) says exactly whether adapt(obj, P) yields something (a falsy adapter is an adapter)")
+        ex.check(_g_supports(val, Target) == (state["gen"] >= 0) and (_g_adapt(val, Target, None) is not None) == (state["gen"] >= 0),
+                 "the module-level supports_protocol / adapt entry points answer like the manager's methods")
         try:
             o.t = wrap(val)
             ok = True
